@@ -62,6 +62,12 @@ CLAIMED = {
         note="Edges between two members of the same choice are excluded (implicit sub-menu rule is outside the modelled language); bases have <= 8 options; the error text is only required to mention an option on a cycle.",
         design_ref="DESIGN.md section 3, C09",
     ),
+    "C07": dict(
+        technique="TLA+ description of what each output format says about a configuration and about every deprecated alias (spec/KOutputs.tla on top of KEval); TLC enumerates every configuration of every (program, rename table) pair (spec/MC_Outputs.tla), compares with what format readers find in the real sdkconfig / header / CMake / JSON / auto.conf and evaluates cross-format agreement on the observations",
+        text="Model checking: for each (program, rename table) TLC enumerates all assignments, computes per format the abstract map name -> absent/value with the format's encoding of n and the alias rule (replacement's value, inverted iff the alias's own line is marked and the option is bool, last mapping wins), and compares with the files written by the real generators; SameValue and AliasAgree are also evaluated directly on the observed maps.",
+        note="Generators called in-process; header aliases are evaluated with C preprocessor semantics by the harness reader; ordering inside files is left open; rename tables of <= 4 lines over <= 2 options.",
+        design_ref="DESIGN.md section 3, C07",
+    ),
 }
 
 REASON_PENDING = "check not built yet in this session (planned in DESIGN.md section 3); not claimed until its TLA+ model and conformance harness exist"
